@@ -329,6 +329,37 @@ theorem resume_core {cfg : Cfg} (pre post : C → C) (hpre : Blind pre) (hpost :
   · rw [hsto] at s3; exact s3
   · rw [hpm2]; rw [hsto, hpm] at s4; exact s4
 
+/-! ### `resendStored` (fix 999e935): `send_stored`, then the keep-alive re-arm iff something was resent -/
+
+/-- "at least one stored packet was requested for sending again" -/
+def resendCond (c : C) : Bool := ((sendStored c).ev.drop c.ev.length).any isSendEv
+
+def rearmIf (b : Bool) (c : C) : C := if b then sendPostProcess c else c
+
+theorem resendStored_eq_rearm (c : C) : resendStored c = rearmIf (resendCond c) (sendStored c) := by
+  unfold resendStored rearmIf resendCond
+  rfl
+
+theorem blind_rearmIf (b : Bool) : Blind (rearmIf b) := by
+  intro c X
+  unfold rearmIf
+  cases b
+  · rfl
+  · exact sendPostProcess_ws c X
+
+/-- the re-arm decision is the same on two objects that differ only in the session bookkeeping
+    and hold the same store -/
+theorem resendCond_ws {cfg : Cfg} (pre : C → C) (hpre : Blind pre)
+    (c : C) (X : Sess) (hst : X.store = c.s.store)
+    (w1 : PidWfT cfg c.s.pidMan) (w2 : PidWfT cfg X.pidMan)
+    (hag : ∀ e ∈ c.s.store, (isUsed c.s e.1 = true ↔ Alloc.isUsed X.pidMan e.1 = true)) :
+    resendCond (pre (c.ws X)) = resendCond (pre c) := by
+  obtain ⟨pm2, D, a, _⟩ := resume_core (cfg := cfg) pre id hpre (fun _ _ => rfl) c X hst w1 w2 hag
+  simp only [id] at a
+  unfold resendCond
+  rw [a, hpre c X]
+  rfl
+
 theorem connackSendProp_ws (c : C) (X : Sess) (id v : Nat) :
     connackSendProp (c.ws X) id v = (connackSendProp c id v).ws X := by
   obtain ⟨cfg, s, ev⟩ := c
